@@ -219,18 +219,16 @@ def main(pid, modname, argv=None):
             path, rc, outp = replay_candidate(pid, modname, cand, r["case"], ncand)
             if rc == 1:
                 replays_confirmed += 1
-                key = None
-                for line in outp.splitlines():
-                    if line.startswith("FINDING-KEY:"):
-                        key = line.split(":", 1)[1].strip()
-                if key and key in known_keys:
-                    known_hits.setdefault(key, (path, outp))
+                keys = [line.split(":", 1)[1].strip() for line in outp.splitlines() if line.startswith("FINDING-KEY:")]
+                if keys and all(k in known_keys for k in keys):
+                    for key in keys:
+                        known_hits.setdefault(key, (path, outp))
                 else:
                     violations.append((cand, r["case"], path, outp))
             elif rc == 0:
                 if cand.get("exact"):
                     errors.append((r["case"], f"exact-domain model for clause {cand['clause']} did not reproduce on plain quanto ({path}): encoding error\n{outp[-600:]}"))
-                else:
+                elif not cand["clause"].startswith("region-witness"):
                     inconclusive.append((r["case"], dict(clause=cand["clause"], verdict="abstract-cex-not-reproduced", domain=cand["domain"])))
             else:
                 errors.append((r["case"], f"replay crashed rc={rc} for {path}: {outp[-800:]}"))
